@@ -119,6 +119,22 @@ pub fn one_scenario(rep: &Report, idx: usize, sc: &Scenario, keep: bool) -> Opti
         if st.in_place_locations > 0 && st.locations_written > 0 {
             rep.nontrivial(format!("p{}:{}", idx, sc.key()));
         }
+        // The same clone with one write failing once (a bad sector): the run normally fails;
+        // if it reports success, what it wrote must still obey the rule (nothing twice,
+        // nothing into a location that was already right).
+        if o.write_calls > 1 {
+            let k = (sc.src_seed as usize ^ idx) % o.write_calls;
+            cc::prepare_output(&b, sc);
+            let of = cc::run_clone(&dir, &b, sc, "wf", &Faults { fault: Some(format!("0,{},errno,{}", k, libc::EIO)), ..Default::default() });
+            rep.eval();
+            if of.exit != Exit::Timeout && of.shim_ok && of.fault_fired {
+                rep.count("process.one_shot_write_faults_fired", 1);
+                if of.exit.ok() {
+                    cc::judge_writes(&b, sc, &of).map_err(|e| format!("write #{} failed once (EIO), the clone still reported success, and its writes break the rule: {}", k, e))?;
+                    rep.count("process.one_shot_write_fault_survived", 1);
+                }
+            }
+        }
         rep.sample_if(idx % 31 == 0, || {
             json!({"scenario": sc.to_json(), "write_calls": o.writes.len(), "bytes_written": st.bytes_written,
                    "locations_written": st.locations_written, "in_place_locations": st.in_place_locations,
